@@ -42,9 +42,9 @@ type c08Scenario struct {
 }
 
 var c08Faults = map[string][]string{
-	"hwmon":     {"eio", "garbage", "empty", "missing"},
-	"file-vdev": {"eio", "garbage", "empty", "missing"},
-	"file-real": {"missing", "empty", "garbage"},
+	"hwmon":     {"eio", "garbage", "empty", "missing", "blank", "nan"},
+	"file-vdev": {"eio", "garbage", "empty", "missing", "blank", "nan"},
+	"file-real": {"missing", "empty", "garbage", "blank", "nan", "inf", "-Inf"},
 	"cmd":       {"exit1", "garbage", "empty", "nan", "inf", "-Inf", "NaN", "+inf"},
 }
 
@@ -97,7 +97,8 @@ type c08Source struct {
 func (s *c08Source) apply(p c08Poll) {
 	switch s.kind {
 	case "hwmon", "file-vdev":
-		s.dev.SetReadMode(map[string]int{"": sim.ReadOK, "eio": sim.ReadEIO, "garbage": sim.ReadGarbage, "empty": sim.ReadEmpty, "missing": sim.ReadMissing}[p.Fault])
+		s.dev.SetReadMode(map[string]int{"": sim.ReadOK, "eio": sim.ReadEIO, "garbage": sim.ReadGarbage, "empty": sim.ReadEmpty, "missing": sim.ReadMissing,
+			"blank": sim.ReadBlank, "nan": sim.ReadNaN}[p.Fault]) // garbage, empty, blank, nan: content parsed by fan2go's own ReadIntFromFile
 		s.dev.Set(int(p.Val))
 	case "file-real":
 		switch p.Fault {
@@ -107,6 +108,10 @@ func (s *c08Source) apply(p c08Poll) {
 			os.WriteFile(s.path, nil, 0644)
 		case "garbage":
 			os.WriteFile(s.path, []byte("n/a\n"), 0644)
+		case "blank":
+			os.WriteFile(s.path, []byte(" \n"), 0644)
+		case "nan", "inf", "-Inf":
+			os.WriteFile(s.path, []byte(p.Fault+"\n"), 0644)
 		default:
 			os.WriteFile(s.path, []byte(strconv.Itoa(int(p.Val))+"\n"), 0644)
 		}
